@@ -243,6 +243,7 @@ def run(ctx):
                  "harness/translate_mirp.py (ast -> Gallina printer for the plain-Python methods of class MIRP: __init__, "
                  "add_node, add_arc, add_nodes, add_travel_arcs, add_entry_arcs, add_exit_arcs, estimate_high_cost) and the "
                  "meaning given to its combinators in coq/theories/PyMirp.v")
+    from props import pysem; pysem.run(ctx, pysem.GROUPS_FOR.get(ctx.pid, ()))
     rng = ctx.rng
     from props import c11_after
     n_after = c11_after.run_stream(ctx)      # windows are untouched by, and carried into, the formulations
